@@ -22,6 +22,7 @@ import (
 	"encoding/json"
 	"fmt"
 	"math/rand"
+	"sort"
 	"strings"
 	"time"
 	"unicode"
@@ -418,6 +419,31 @@ func c13RunProfile(pr c13Profile, raw []byte, withChunkers bool) Result {
 	}
 	res.Nontrivial = len(pieces) >= 2
 	res.Events = append(res.Events, c13SplitEvent(text, pieces, term, pr.Unit, pr.Limit, pr.Cpt, "SplitToSize", tag))
+	// reuse: ONE calculator splits the text, a shorter one, a longer one and the text
+	// again (other methods called in between); every answer must be a fresh calculator's
+	if len(runs) >= 2 && h%2 == 0 {
+		short, long := c13Render(runs[:len(runs)/2]), text+" "+text
+		calc := rag.NewSizeCalculatorWithConfig(cfg)
+		for call, t := range []string{text, short, long, c13Rotate(text), text} {
+			var got, want []string
+			_, term, p := c13Timed(func() []string {
+				got = calc.SplitToSize(t, nil)
+				calc.Calculate(short)
+				calc.Check(long)
+				calc.FindSplitPoint(text, nil)
+				want = rag.NewSizeCalculatorWithConfig(cfg).SplitToSize(t, nil)
+				return nil
+			})
+			res.Evals += 2
+			if p != nil || !term {
+				break
+			}
+			res.Events = append(res.Events, c13ReuseEvent("SizeCalculator", strings.Join(got, "\x00") == strings.Join(want, "\x00") && len(got) == len(want), call))
+			if call >= 1 && call <= 3 {
+				res.Events = append(res.Events, c13SplitEvent(t, got, true, pr.Unit, pr.Limit, pr.Cpt, "SplitToSize", c13Tag(t)))
+			}
+		}
+	}
 	if !withChunkers {
 		return res
 	}
@@ -645,15 +671,53 @@ func c13RunOverlap(c c13OverlapCase, raw []byte) Result {
 		}
 		if o != nil {
 			res.Events = append(res.Events, c13OverlapEvent(own[i], o.Text, c.Min, c.Max, "GenerateOverlap", c.Strategy))
+			// the generator is reused for every text: each answer must be a fresh generator's
+			res.Events = append(res.Events, c13ReuseEvent("OverlapGenerator", c13SameOverlap(o, rag.NewOverlapGeneratorWithConfig(cfg).GenerateOverlap(own[i])), i))
 		}
 	}
-	// (b) ApplyOverlapToChunks
+	if len(own) > 0 { // a different text of the same length is a different question
+		rot := c13Rotate(own[0])
+		res.Events = append(res.Events, c13ReuseEvent("OverlapGenerator", c13SameOverlap(gen.GenerateOverlap(rot), rag.NewOverlapGeneratorWithConfig(cfg).GenerateOverlap(rot)), -1))
+		res.Evals++
+	}
+	if len(own) > 1 { // ... and asking again for the first text gives the first answer
+		first := rag.NewOverlapGeneratorWithConfig(cfg).GenerateOverlap(own[0])
+		res.Events = append(res.Events, c13ReuseEvent("OverlapGenerator", c13SameOverlap(gen.GenerateOverlap(own[0]), first), len(own)))
+		res.Evals++
+	}
+	// (b) ApplyOverlapToChunks: what it adds, and what it changes in the chunks it was given
+	before := c13Snaps(chunks)
 	var with []*rag.ChunkWithOverlap
 	_, _, p := c13Timed(func() []string { with = rag.ApplyOverlapToChunks(chunks, cfg); return nil })
 	res.Evals++
 	if p != nil {
 		return bad("ApplyOverlapToChunks", p)
 	}
+	res.Events = append(res.Events, c13FrameEvent(before, chunks, own, 1))
+	defer func() {
+		if !res.OK {
+			return
+		}
+		// (c) applied a second time to the same chunks, the contract holds relative to
+		// the texts the second call was given
+		given := make([]string, len(chunks))
+		for i, ch := range chunks {
+			given[i] = ch.Text
+		}
+		before2 := c13Snaps(chunks)
+		var with2 []*rag.ChunkWithOverlap
+		_, _, p := c13Timed(func() []string { with2 = rag.ApplyOverlapToChunks(chunks, cfg); return nil })
+		res.Evals++
+		if p != nil || len(with2) != len(chunks) {
+			return
+		}
+		res.Events = append(res.Events, c13FrameEvent(before2, chunks, given, 2))
+		for i := 1; i < len(with2); i++ {
+			if added, ok := c13Added(with2[i].Chunk.Text, given[i], "Section title", c.Ctx); ok {
+				res.Events = append(res.Events, c13OverlapEvent(given[i-1], added, c.Min, c.Max, "ApplyOverlapToChunks:second-call", c.Strategy))
+			}
+		}
+	}()
 	for i := 1; i < len(with); i++ {
 		added, ok := c13Added(with[i].Chunk.Text, own[i], "Section title", c.Ctx)
 		if !ok {
@@ -666,6 +730,75 @@ func c13RunOverlap(c c13OverlapCase, raw []byte) Result {
 		res.Events = append(res.Events, c13OverlapEvent(own[i-1], added, c.Min, c.Max, "ApplyOverlapToChunks", c.Strategy))
 	}
 	return res
+}
+
+// c13Rotate moves the first character to the end: another text of the same length.
+func c13Rotate(s string) string {
+	_, w := utf8.DecodeRuneInString(s)
+	if w == 0 || w >= len(s) {
+		return s
+	}
+	return s[w:] + s[:w]
+}
+
+func c13ReuseEvent(api string, same bool, call int) Event {
+	return Event{"event": "Reuse", "api": api, "same": same, "call": call}
+}
+
+func c13SameOverlap(a, b *rag.OverlapResult) bool {
+	if a == nil || b == nil {
+		return a == b
+	}
+	return a.Text == b.Text && a.CharCount == b.CharCount && a.SentenceCount == b.SentenceCount && a.Strategy == b.Strategy
+}
+
+// c13Snaps: every field of every chunk, flattened ("id", "text", "metadata.page_start", ...)
+func c13Snaps(chunks []*rag.Chunk) []map[string]string {
+	out := make([]map[string]string, len(chunks))
+	for i, ch := range chunks {
+		m := map[string]string{}
+		var top map[string]json.RawMessage
+		json.Unmarshal(mustJSON(ch), &top)
+		for k, v := range top {
+			if k == "metadata" {
+				var md map[string]json.RawMessage
+				json.Unmarshal(v, &md)
+				for mk, mv := range md {
+					m["metadata."+mk] = string(mv)
+				}
+				continue
+			}
+			m[k] = string(v)
+		}
+		out[i] = m
+	}
+	return out
+}
+
+// c13FrameEvent: which fields of the given chunks one ApplyOverlapToChunks call
+// changed, and whether every text still ends with the text that was given.
+func c13FrameEvent(before []map[string]string, chunks []*rag.Chunk, given []string, call int) Event {
+	after := c13Snaps(chunks)
+	changed := make([][]string, len(chunks))
+	kept := make([]bool, len(chunks))
+	for i := range chunks {
+		changed[i] = []string{}
+		keys := map[string]bool{}
+		for k := range before[i] {
+			keys[k] = true
+		}
+		for k := range after[i] {
+			keys[k] = true
+		}
+		for k := range keys {
+			if before[i][k] != after[i][k] {
+				changed[i] = append(changed[i], k)
+			}
+		}
+		sort.Strings(changed[i])
+		kept[i] = strings.HasSuffix(chunks[i].Text, given[i])
+	}
+	return Event{"event": "Frame", "changed": changed, "kept": kept, "api": "ApplyOverlapToChunks", "call": call}
 }
 
 // c13RunChunkerOverlap: a document of headed sections through
